@@ -47,18 +47,19 @@ class Prop(BaseProp):
         for kind, lic in lics.items():
             m = drv.call(T('index'), T(kind), recs)
             it = table_of(lic)
+            table = it
             if m == 'keyerr' or m[1]:
                 yield Verdict('diverge', dict(case0, kind=kind), 'the model refuses an index the code accepts', model=str(m)[:200])
-                continue
-            mt = sorted([[k, al, bool(ex)] for k, al, ex in m[2]])
-            if it != mt:
-                diff = [x for x in it if x not in mt][:3] + [x for x in mt if x not in it][:3]
-                yield Verdict('diverge', dict(case0, kind=kind), 'loader table', impl=diff)
-                continue
-            ok = drv.call(T('indexok'), m[2])
-            if not ok:
-                yield Verdict('diverge', dict(case0, kind=kind), 'indexOK is false for this index: the general theorem does not apply to it')
-            table = m[2]
+            else:
+                mt = sorted([[k, al, bool(ex)] for k, al, ex in m[2]])
+                if it != mt:
+                    diff = [x for x in it if x not in mt][:3] + [x for x in mt if x not in it][:3]
+                    yield Verdict('diverge', dict(case0, kind=kind), 'loader table', impl=diff)
+                else:
+                    ok = drv.call(T('indexok'), m[2])
+                    if not ok:
+                        yield Verdict('diverge', dict(case0, kind=kind), 'indexOK is false for this index: the general theorem does not apply to it')
+                    table = m[2]
             known = set(lic.known_symbols)
             mreqs = []
             for r in idx:
